@@ -11,6 +11,7 @@ import Iodata.Lemmas.Fmt.Xyz
 import Iodata.Lemmas.Fmt.Sdf
 import Iodata.Lemmas.Fmt.Pdb
 import Iodata.Lemmas.Fmt.PdbConect
+import Iodata.Lemmas.Fmt.Fchk
 import Iodata.Gen.Layouts
 
 namespace Iodata.Props.C15
@@ -87,6 +88,32 @@ theorem pdb_generations (T : Tables) (L : Pdb.Layout) (hL : Pdb.LayoutOK L) (hC 
     rw [this] at h₁; exact (Except.ok.inj h₁).symm
   have h2 := Pdb.load_dump_bonds T L hL hC x₁.obj (e ▸ Pdb.domB_norm T L hL o h)
   have hid : Pdb.norm L x₁.obj = x₁ := by rw [e]; exact Pdb.norm_idem_bonds L hL o
+  rw [hid] at h2
+  refine ⟨h2, ?_⟩
+  intro x₂ h3
+  rw [h2] at h3
+  rw [← Except.ok.inj h3]
+
+/-! ## FCHK, field layer -/
+
+/-- FCHK: what a reload returns (empty arrays dropped, title defaulted, names lower-cased, run type mapped through both
+tables) is a fixed point and stays in the domain. -/
+theorem fchk_norm_stable (L : Fchk.Layout) (hL : Fchk.LayoutOK L) (R : Fchk.RunTypes) (hR : Fchk.RunTypesOK L R)
+    (o : Fchk.Obj) (h : Fchk.Dom L o) :
+    Fchk.norm L R (Fchk.norm L R o).obj = Fchk.norm L R o ∧ Fchk.Dom L (Fchk.norm L R o).obj :=
+  ⟨Fchk.norm_idem L hL R hR o h, Fchk.dom_norm L hL R hR o h⟩
+
+/-- FCHK: generations 2 and 3 coincide at the field layer. -/
+theorem fchk_generations (L : Fchk.Layout) (hL : Fchk.LayoutOK L) (R : Fchk.RunTypes) (hR : Fchk.RunTypesOK L R)
+    (o : Fchk.Obj) (x₁ : Fchk.Loaded) (h : Fchk.Dom L o)
+    (h₁ : Fchk.load L.reader R (fun _ => true) (Fchk.dump L R o) = .ok x₁) :
+    Fchk.load L.reader R (fun _ => true) (Fchk.dump L R x₁.obj) = .ok x₁ ∧
+    ∀ x₂, Fchk.load L.reader R (fun _ => true) (Fchk.dump L R x₁.obj) = .ok x₂ → Fchk.dump L R x₂.obj = Fchk.dump L R x₁.obj := by
+  have e : x₁ = Fchk.norm L R o := by
+    have := Fchk.load_dump L hL R hR (fun _ => true) o h (fun _ _ => rfl)
+    rw [this] at h₁; exact (Except.ok.inj h₁).symm
+  have h2 := Fchk.load_dump L hL R hR (fun _ => true) x₁.obj (e ▸ Fchk.dom_norm L hL R hR o h) (fun _ _ => rfl)
+  have hid : Fchk.norm L R x₁.obj = x₁ := by rw [e]; exact Fchk.norm_idem L hL R hR o h
   rw [hid] at h2
   refine ⟨h2, ?_⟩
   intro x₂ h3
